@@ -88,6 +88,9 @@ func oneHistory(c *Ctx, seed int64) (bool, error) {
 	if g.Mutated > 0 {
 		c.Count("history:with_invalid_injection")
 	}
+	if g.OffFamily > 0 {
+		c.Count("history:off_family_source(not judged by monitors)")
+	}
 	c.Count(fmt.Sprintf("history:lite=%v", cfg.Lite))
 	tag := "h"
 	if cfg.Lite {
